@@ -73,6 +73,8 @@ type c16Src struct {
 	typ     string // sample type name; "" = a profile without sample types (and without samples)
 	samples []c16KV
 	comment string // distinct per source: the merged profile's Comments list the contributors in merge order
+	unit    string // unit of the sample type ("" = "count"); round-5 header streams use time units
+	dst     string // Profile.DefaultSampleType
 	drop    string // Profile.DropFrames (end-to-end streams: "", a pattern matching no frame, or a non-RE2 pattern)
 }
 
@@ -100,7 +102,12 @@ func c16Profile(s c16Src, invalid bool) *profile.Profile {
 	// PeriodType must not be nil: profile.(*Profile).compatible dereferences it (merge.go:537)
 	p := &profile.Profile{PeriodType: &profile.ValueType{Type: "cpu", Unit: "nanoseconds"}, Period: 1}
 	if s.typ != "" {
-		p.SampleType = []*profile.ValueType{{Type: s.typ, Unit: "count"}}
+		u := s.unit
+		if u == "" {
+			u = "count"
+		}
+		p.SampleType = []*profile.ValueType{{Type: s.typ, Unit: u}}
+		p.DefaultSampleType = s.dst
 	}
 	if s.comment != "" {
 		p.Comments = []string{s.comment}
@@ -159,7 +166,11 @@ func c16ObsProfile(p *profile.Profile) Term {
 		}
 		ss = append(ss, L(S(name), Z(v)))
 	}
-	return L(S(typ), L(ss...), ZI(len(p.SampleType)), Ss(p.Comments))
+	unit := ""
+	if len(p.SampleType) > 0 {
+		unit = p.SampleType[0].Unit
+	}
+	return L(S(typ), L(ss...), ZI(len(p.SampleType)), Ss(p.Comments), ZI(c16UnitCode(unit)), S(p.DefaultSampleType))
 }
 
 // ---- scripted environment
@@ -482,7 +493,7 @@ func c16Run(cs c16Case) (obs Term) {
 // (coq/R_C16.v plain_prof) rebuilds the profile from the position.
 func c16IsPlain(s c16Src, i, grp int) bool {
 	q := c16Plain(i, grp, true)
-	if s.drop != "" || s.typ != q.typ || len(s.samples) != len(q.samples) || s.comment != fmt.Sprintf("c%d:%d", grp, i) {
+	if s.unit != "" || s.dst != "" || s.drop != "" || s.typ != q.typ || len(s.samples) != len(q.samples) || s.comment != fmt.Sprintf("c%d:%d", grp, i) {
 		return false
 	}
 	for j := range s.samples {
@@ -508,6 +519,9 @@ func c16SrcTerm(s c16Src) Term {
 	cm := []string{}
 	if s.comment != "" {
 		cm = append(cm, s.comment)
+	}
+	if s.unit != "" || s.dst != "" {
+		return L(ZI(s.kind), S(s.typ), L(kv...), Ss(cm), S(s.drop), ZI(c16UnitCode(s.unit)), S(s.dst))
 	}
 	if s.drop != "" {
 		return L(ZI(s.kind), S(s.typ), L(kv...), Ss(cm), S(s.drop))
@@ -937,6 +951,7 @@ func runC16(c *Ctx) {
 	}
 	c.c16TransportStreams()
 	c.c16E2EStreams()
+	c.c16HeaderStreams()
 	c.c16Flush()
 	c.Extra["controller_stalls"] = c16Stalls
 }
